@@ -49,6 +49,7 @@ class Channel(BaseChannel):
         self.rpc = Rpc(self, timeout=rpc_timeout)
         self._consumer_callbacks = {}
         self._confirming_deliveries = False
+        self._return_left = None
         self._connection = connection
         self._inbound = collections.deque()
         self._basic = Basic(self, connection.max_frame_size)
@@ -290,6 +291,10 @@ class Channel(BaseChannel):
         :param pamqp.Frame frame_in: Amqp frame.
         :return:
         """
+        if self._returned_content(frame_in):
+            self._inbound.append(frame_in)
+            return
+
         if self.rpc.on_frame(frame_in):
             return
 
@@ -321,6 +326,7 @@ class Channel(BaseChannel):
         self._inbound.clear()
         self._exceptions = []
         self._confirming_deliveries = False
+        self._return_left = None
         self.set_state(self.OPENING)
         self.rpc_request(specification.Channel.Open())
         self.set_state(self.OPEN)
@@ -463,6 +469,32 @@ class Channel(BaseChannel):
         exception = AMQPMessageError(message,
                                      reply_code=frame_in.reply_code)
         self.exceptions.append(exception)
+        # The content header of the returned message comes next.
+        self._return_left = -1
+
+    def _returned_content(self, frame_in):
+        """Is the frame part of the content of a returned message.
+
+            The content header and body frames that follow a Basic.Return
+            belong to the returned message, they are never the reply to a
+            pending request (e.g. Basic.Get).
+
+        :param pamqp.Frame frame_in: Amqp frame.
+
+        :rtype: bool
+        """
+        left = self._return_left
+        if left is None:
+            return False
+        if left < 0 and frame_in.name == 'ContentHeader':
+            self._return_left = frame_in.body_size or None
+            return True
+        if left > 0 and frame_in.name == 'ContentBody':
+            left -= len(frame_in.value)
+            self._return_left = left if left > 0 else None
+            return True
+        self._return_left = None
+        return False
 
     def _build_message(self, auto_decode, message_impl):
         """Fetch and build a complete Message from the inbound queue.
